@@ -16,7 +16,9 @@ pub(crate) fn mk_index1(hash_length: usize, key: &[u8], size: usize, off: u64) -
     let mut offsets = Vec::with_capacity(1);
     offsets.push(off);
     map.insert(k, ChunkLocation { size, offsets });
-    ChunkIndex { map, hash_length }
+    let mut idx = ChunkIndex::new_empty(hash_length);
+    idx.map = map;
+    idx
 }
 pub(crate) fn add_entry2(idx: &mut ChunkIndex, key: &[u8], size: usize, off0: u64, off1: u64) {
     let mut k = HashSum::from(key);
